@@ -4,6 +4,7 @@ import Mieru.Proofs.Flow
 import Mieru.Model.Retx
 import Mieru.Gen.Consts
 import Mieru.Gen.Facts
+import Mieru.Gen.UdpFacts
 /-!
 # C02 — UDP transport: reliable, ordered, exactly-once stream over a faulty network; progress
 
@@ -412,6 +413,41 @@ theorem txcount_is_emissions {P : Flow.Params} (ok : P.Ok) {s : Flow.St} (h : Fl
   have hT := Flow.reach_invT ok h
   have e := hT.txCnt k hk
   exact ⟨e, hT.txLim k _ e⟩
+
+/-! ### Structural ties of the flow-control model (regenerated from session.go, `Mieru.Gen.UdpFacts`) -/
+
+/-- `Flow.Step.recvAck` stores the window of EVERY ack: in `inputAck` the store of the advertised window
+    is nested in no condition (in `inputData` / `moveRecvBufToRecvQueue` only in the type assertion of
+    the metadata). A store that depends on whether the ack acknowledged something new — which would lose
+    the pure window update that reopens a closed window — changes this list. -/
+theorem window_stored_by_every_ack :
+    Gen.UdpFacts.remoteWindowStores =
+      [("newSessionWithServerUserPolicy", "minWindowSize", []),
+       ("Session.inputData", "uint32(das.windowSize)", ["ok"]),
+       ("Session.inputAck", "uint32(das.windowSize)", []),
+       ("Session.moveRecvBufToRecvQueue", "uint32(das.windowSize)", ["ok"])] := by decide
+
+/-- `Flow.rwin` and `Flow.sendWindow` are the code's window formulas -/
+theorem window_formulas :
+    (Gen.UdpFacts.recvPathIfs.filter (fun x => x.1 == "Session.receiveWindowSize" || x.1 == "Session.sendWindowSize")) =
+      [("Session.receiveWindowSize", "return", "return mathext.Max(0, segmentTreeCapacity-s.recvBuf.Len()-s.recvQueue.Len())"),
+       ("Session.sendWindowSize", "return", "return mathext.Max(0, mathext.Min(int(s.cubicSendAlgorithm.CongestionWindowSize())-s.sendBuf.Len(), int(s.remoteWindowSize.Load())))")] := by
+  decide
+
+/-- the guards of `Flow.recv` (window closed ⇒ drop; insertion failed ⇒ drop) and of `Flow.Step.sendNew` /
+    `Flow.sendLoop` / `Flow.Step.write` (`sendBuf.Remaining() <= 1`, the window test, `sendQueue.Remaining() <= nFragment`)
+    are the ones in the source, in this order -/
+theorem flow_guards :
+    Gen.UdpFacts.inputDataGuards =
+      [("s.waitForRecvQueueSpace()", "…"), ("s.receiveWindowSize() <= 0", "return nil"),
+       ("!s.recvBuf.Insert(seg)", "return nil"), ("s.waitForRecvQueueSpace()", "…")] ∧
+    Gen.UdpFacts.sendPathGuards =
+      [("Session.runOutputOncePacket", "if time.Now().UnixMicro() >= s.nextRetransmissionTime.Load()"),
+       ("Session.runOutputOncePacket", "skipSendNewSegment := s.sendWindowSize() <= 0"),
+       ("Session.runOutputOncePacket", "if s.sendQueue.Len() > 0 && !skipSendNewSegment"),
+       ("Session.runOutputOncePacket", "if s.sendBuf.Remaining() <= 1"),
+       ("Session.runOutputOncePacket", "if s.shouldDeferNextPacketData()"),
+       ("Session.writeChunk", "for s.sendQueue.Remaining() <= nFragment")] := by decide
 
 /-! ### Non-vacuity of the flow-control theorems -/
 
